@@ -588,7 +588,7 @@ impl Monitor for C07 {
         let n = match rng.below(10) {
             0..=5 => rng.range(0, 40),
             6..=8 => rng.range(20, maxn.min(600)),
-            _ => rng.range(100, maxn),
+            _ => rng.range(100.min(maxn), maxn),
         };
         let order = rng.usize(ORDERS.len());
         match rng.below(8) {
